@@ -26,7 +26,7 @@ PROPS["C14"] = {
         "M3 in-process correspondence through the `verif` re-export of TagState (bounded-exhaustive name sets x lines, each case 3x with fresh hash seeds)",
     ],
     "modelled": [STD_TEXT, "std HashMap is modelled as an association list in arbitrary order (theorem inject_order_irrelevant)", "str::lines / replace_line_ending (model replaceLE)"],
-    "level_text": 'Lean theorems over the tag-store model: create fails exactly in the documented cases; every reachable store is prefix-free; under that invariant substitution is independent of map iteration order (determinism); inject_spec: the result is the line with exactly the greedily selected occurrences replaced by their line-ending-normalised values, every selected occurrence is the FIRST occurrence of a stored name, selected occurrences are increasing and non-overlapping, every unselected occurrence starts inside an earlier selected one, exactly the selected names are deleted, values are not scanned again; a waiting tag captures the next directive output (which is then not written); reaching the end of the file with a tag left is an error. The model is compared with TagState in process on every name set / line up to the bound, 3 repetitions each with fresh hash seeds.',
+    "level_text": 'Lean theorems over the tag-store model: create fails exactly in the documented cases; every reachable store is prefix-free; under that invariant substitution is independent of map iteration order (determinism); inject_spec: the result is the line with exactly the greedily selected occurrences replaced by their line-ending-normalised values, every selected occurrence is the FIRST occurrence of a stored name, selected occurrences are increasing and non-overlapping, every unselected occurrence starts inside an earlier selected one, exactly the selected names are deleted, values are not scanned again; a waiting tag captures the next directive output (which is then not written); reaching the end of the file with a tag left is an error; the name a tag directive creates is its whole first argument, inner blanks included (tag_name_is_the_whole_argument). The model is compared with TagState in process on every name set / line up to the bound, 3 repetitions each with fresh hash seeds.',
     "design_ref": "5 C14, 4.4",
     "level_note": 'Trusted: Lean kernel + {propext, Quot.sound}; std HashMap is modelled as an association list in arbitrary order.',
     "technique": "Lean 4 proof (invariant + permutation-invariance) + bounded-exhaustive differential correspondence",
@@ -206,7 +206,7 @@ PROPS["C17"] = {
     "cli": True,
     "trusted_base": ["M9: real sh / bash / an argv-logging wrapper shell; pwd -P, $TXTPP_FILE, argv and exit status captured from the real child process", "library runs with the default shell compared with the model (pwd / file actions)"],
     "modelled": ["std::process::Command (current_dir, env, arg) and the shell are not modelled in Lean: the model states what is handed to them"],
-    "level_text": "Lean theorems over the model: a run directive hands the shell exactly the argument lines joined by single spaces as one string and a failing command fails the directive; base ++ display(base, src) = src (TXTPP_FILE designates the source at every depth); the working directory given to a command of a source at dir/name is base/dir. The contract with the OS is checked by correspondence on depth 0..3 x cwd relation {equal, parent with relative base_dir, unrelated} x library/CLI x {sh, bash, argv-logging shell} x command shapes; main's guard on TXTPP_FILE is modelled (Model/Cli.lean `entry`): proved to refuse exactly on a non-empty value whatever the command line, and that the value a command finds in TXTPP_FILE is never empty, so a txtpp started by a command refuses (commands_cannot_recurse); the binary is compared with that model on TXTPP_FILE values x {build, -N, verify, clean} and on run commands that start txtpp themselves at depth 0..2.",
+    "level_text": "Lean theorems over the model: a run directive hands the shell exactly the argument lines joined by single spaces as one string and a failing command fails the directive; base ++ display(base, src) = src (TXTPP_FILE designates the source at every depth); the working directory given to a command of a source at dir/name is base/dir. The contract with the OS is checked by correspondence on depth 0..3 x cwd relation {equal, parent with relative base_dir, unrelated} x library/CLI x {sh, bash, argv-logging shell} x command shapes; main's guard on TXTPP_FILE is modelled (Model/Cli.lean `entry`): proved to refuse exactly on a non-empty value whatever the command line, and that the value a command finds in TXTPP_FILE is never empty, so a txtpp started by a command refuses (commands_cannot_recurse); the binary is compared with that model on TXTPP_FILE values x {build, -N, verify, clean} and on run commands that start txtpp themselves at depth 0..2. Also proved: the -s setting is split at white space only (tokens non-empty, blank = sh -c); a source not below the base directory component-wise keeps its absolute path in TXTPP_FILE.",
     "design_ref": "5 C17",
     "level_note": "Mostly a correspondence-level claim: process spawning is OS behaviour. Finding F1 (relative cwd) was repaired; the cwd-relation dimension is what exposed it.",
     "technique": "Lean 4 proof (command join, display/join round trip) + correspondence with real shells",
